@@ -14,7 +14,7 @@ P = {
 P['C08'] = dict(cat='other', tech='ownership / alias analysis of handle-holding classes over all call sites (custom libTooling checker)',
    text='Ownership analysis: payload classes are value-only; every handle write is a fresh allocation; no copy of an aliasing class (Frame, and classes holding it by value) lands in object-owned storage; no public method hands out a handle. Full claim at the structural level: the property is an ownership property.',
    note='Users of the documented const-bypass accessors are outside the property; C++11 vector::resize(n) value-initialises each element. ' + TB, ref='4/C08')
-P['C11'] = dict(cat='other', tech='accessor inventory by signature shape + per-accessor discipline rules on AST/CFG, finite enumeration of the type enum (custom libTooling checker)',
+P['C11'] = dict(cat='other', tech='accessor inventory by signature shape + per-accessor discipline rules on AST/CFG, finite enumeration of the type enum; accessors and searches written another way (helpers, std algorithms, templates) are decided by walking the CFG on finite models (custom libTooling checker)',
    text='Every positional accessor is bounds-checked on the full-width unmodified index and translates to std::out_of_range; index-by-name functions are first-exact-match loops ending in std::invalid_argument; by-name accessors compose the two on one container; typed getters enumerated over all DATA_TYPE values; every name store is trimmed. Full claim except the text of messages.',
    note='Assumes std::vector::at and std::string::compare behave per the standard. ' + TB, ref='4/C11')
 P['C14'] = dict(cat='other', tech='effect-set (purity), source-inventory (determinism), write-site classification with path-sensitive width evaluation (definedness), constructor definite-initialisation (custom libTooling checker)',
@@ -54,7 +54,7 @@ P['C10'] = dict(cat='other', tech='nothing-after path rule on the event-level CF
 P['C05'] = dict(cat='other', tech='must-pass-through path rule with effect sets (updater reachability), finite-model walk of updateHeader against the sync table (A7), structural regeneration rules, type-level who-may-mutate rule',
    text='Partial claim: every public mutator reaches an updater after its last modification on every normal path; updateHeader copies each source parameter into its header field whenever they differ (6-row sync table on finite models); updateParameters regenerates counts and label-like lists one entry per element; nobody else can mutate; derived header getters/setters are a rescaling triple. Does not decide values for every interleaving.',
    note='Documented const-bypass accessors are outside the property. ' + TB, ref='4/C05')
-P['C09'] = dict(cat='other', tech='effect sets (A3) against allowed sets, replace-or-append search idiom, step-order path rule, validate-before-assign dominance, accumulator width rule (custom libTooling checker)',
+P['C09'] = dict(cat='other', tech='effect sets (A3) against allowed sets, replace-or-append decision read off the syntax tree or walked on finite models, step-order path rule, validate-before-assign dominance (also through helpers), accumulator width rule (custom libTooling checker)',
    text='Partial claim: edit functions only append or assign the matched element (nothing erased/inserted/sorted), the replaced element is the exact-name match, c3d::parameter performs its steps in order, typed setters assign only after the consistency test with their own type constant and vector, the consistency products are accumulated in 64-bit unsigned arithmetic, lock toggles write one flag. The arithmetic of isDimensionConsistent as a predicate is not decided.',
    note='' + TB, ref='4/C09')
 P['C16'] = dict(cat='other', tech='exception-discipline inventory, signed-to-unsigned length dataflow, index-site inventory restricted to the load call graph, recursion-scheme rule (custom libTooling checker)',
